@@ -333,7 +333,8 @@ func formParse(q string) []string {
 		if i := strings.IndexByte(seq, '='); i >= 0 {
 			name, value = seq[:i], seq[i+1:]
 		}
-		r = append(r, pctDecode(strings.ReplaceAll(name, "+", " ")), pctDecode(strings.ReplaceAll(value, "+", " ")))
+		// bytes that are not valid UTF-8 count as U+FFFD
+		r = append(r, toValid(pctDecode(strings.ReplaceAll(name, "+", " "))), toValid(pctDecode(strings.ReplaceAll(value, "+", " "))))
 	}
 	return r
 }
